@@ -163,8 +163,14 @@ def rule_r1(ctx):
                     ctx.r.violation(rid, key_of(f, None, "exc-args::" + desc), "%s may raise IndexError: some raise site passes no argument" % desc, f.loc(n.ast))
                 continue
             if info["kind"] == "key":
-                # dict lookups with literal keys on the header map etc.: routed like the others (KeyError)
-                pass
+                # dict lookups with literal keys on the header map etc.: routed like the others (KeyError) - unless a
+                # membership test of the same key in the same mapping guards the lookup
+                e = info["expr"]
+                g0 = cfg_of(f)
+                if any(pol and isinstance(t, ast.Compare) and len(t.ops) == 1 and isinstance(t.ops[0], ast.In) and norm(t.left) == norm(e.slice) and norm(t.comparators[0]) == norm(e.value)
+                       for (t, pol) in guards_of(g0, n)):
+                    ctx.r.ok(rid, "%s is guarded by a membership test" % desc, f.loc(n.ast))
+                    continue
             n_prim += 1
             _judge(ctx, rid, sc, f, n, exc, desc)
     ctx.r.floor(rid, n_explicit, 10, "explicit raise sites in the parse scope")
@@ -469,7 +475,45 @@ def rule_r9(ctx):
     c03.rule_r8(ctx, rid="C06.R9")
 
 
-RULES = [rule_r1, rule_r2, rule_r3, rule_r4, rule_r5, rule_r7, rule_r8, rule_r9]
+def rule_r10(ctx, rid="C06.R10"):
+    ctx.r.rule(rid, "a refusal can always be written: Task.__init__ maps every protocol version other than 1.0 / 1.1 (the request line admits any DIGIT.DIGIT or none, and the parser records it before it refuses) to 1.0 - the response builder knows those two only and raises for anything else, which would leave the refused client without a response and the connection open")
+    import operator as op
+    p = ctx.p
+    f = p.func("task.Task.__init__")
+    g = cfg_of(f)
+    fixes = [n for n in g.nodes if n.kind == "stmt" and isinstance(n.ast, ast.Assign) and any(isinstance(t, ast.Name) and t.id == "version" for t in n.ast.targets)
+             and isinstance(n.ast.value, ast.Constant) and n.ast.value.value == "1.0"]
+    if not fixes:
+        raise AnalysisError("anchor vanished: the version fallback of Task.__init__")
+    ops = {ast.Eq: op.eq, ast.NotEq: op.ne, ast.Lt: op.lt, ast.LtE: op.le, ast.Gt: op.gt, ast.GtE: op.ge, ast.In: lambda a, b: a in b, ast.NotIn: lambda a, b: a not in b}
+    fx = fixes[0]
+    gs = [(t, pol) for (t, pol) in guards_of(g, fx) if any(isinstance(x, ast.Name) and x.id == "version" for x in ast.walk(t))]
+    wrong = None
+    for ver in ("1.0", "1.1", "0.9", "0.0", "1.2", "2.0", "9.9", ""):
+        taken = True
+        for (t, pol) in gs:
+            if not (isinstance(t, ast.Compare) and len(t.ops) == 1 and type(t.ops[0]) in ops):
+                raise AnalysisError("cannot evaluate the version test %s" % norm(t))
+            def val(e):
+                if isinstance(e, ast.Name) and e.id == "version":
+                    return ver
+                return p.fold(e, f.module)
+            try:
+                r = ops[type(t.ops[0])](val(t.left), val(t.comparators[0]))
+            except Exception as ex:
+                raise AnalysisError("cannot evaluate the version test %s: %s" % (norm(t), ex))
+            taken = taken and (bool(r) == pol)
+        want = ver not in ("1.0", "1.1")
+        if taken != want and wrong is None:
+            wrong = (ver, taken)
+    if wrong is None:
+        ctx.r.ok(rid, "every version other than 1.0 / 1.1 becomes 1.0 (evaluated for 0.9, 0.0, 1.2, 2.0, 9.9 and none)", f.loc(fx.ast))
+    else:
+        ctx.r.violation(rid, key_of(f, None, "version-fallback::" + wrong[0]), "the version fallback of Task.__init__ (%s) %s version %r: the response builder raises for it, a refused message with that version gets no error response and its connection is never closed"
+                        % (" and ".join(("" if pol else "not ") + norm(t) for (t, pol) in gs), "does not map" if not wrong[1] else "rewrites", wrong[0]), f.loc(fx.ast))
+
+
+RULES = [rule_r1, rule_r2, rule_r3, rule_r4, rule_r5, rule_r7, rule_r8, rule_r9, rule_r10]
 
 from ..selftest import M, T, V  # noqa: E402
 
